@@ -489,8 +489,9 @@ def opTrackerInit (j : Json) : Except String Json := do
     shares := fun s => shares.getD s.val 0, isReb := fun s => isReb.getD s.val false
     factor := ← getRatF ej "factor", curve := cn
     curveI := fun _ _ _ => 0, curveH := fun _ _ _ => 0 }
+  if eventRejected ev then return Json.mkObj [("out", "rejected")]
   let tr := trackerInit tb (← getRatF j "mf") (← getNat j "mfLog10") ev
-  pure <| Json.mkObj [("tracker", trackerOut d tr), ("dmg0", jArr (tabI d tr.dmg0)),
+  pure <| Json.mkObj [("out", "ok"), ("tracker", trackerOut d tr), ("dmg0", jArr (tabI d tr.dmg0)),
     ("hdmg0", jOpt (tr.hdmg0.map fun f => jArr (tabF d f))), ("arb0", jArr (tabI d tr.arb0)),
     ("prec", (tr.prec : Json))]
 
